@@ -85,6 +85,7 @@ pub fn run(s: &mut Session, ctx: &Ctx) {
     for _ in 0..n {
         colors.push(gen::color(&mut rng));
     }
+    let mut suspects: Vec<(f64, Color)> = vec![];
     for (i, c) in colors.iter().enumerate() {
         let got = guard(|| c.to_ansi_8bit());
         let code = match got {
@@ -97,39 +98,10 @@ pub fn run(s: &mut Session, ctx: &Ctx) {
         s.op(format!("ansi to {}", c_in(c)), ok(vec![x(code)]), true);
         let inp = || format!("{}.to_ansi_8bit()", show_color(c));
         s.check(code >= 16, "never-a-system-colour", "AnsiColor::to_ansi_8bit", inp, || format!("code {}", code));
-        let lab = c.to_lab();
-        let mut best = f64::MAX;
-        let mut best_code = 0u8;
-        let mut mine = f64::NAN;
-        for (pc, pl) in &palette {
-            let d = pastel::delta_e::ciede2000(&lab, pl);
-            if d < best {
-                best = d;
-                best_code = *pc;
-            }
-            if *pc == code {
-                mine = d;
-            }
+        let (mine, risk) = near_optimal(s, c, code, &palette);
+        if risk > 0.0 {
+            suspects.push((risk, c.clone()));
         }
-        s.check(mine < best + 1.0, "within-1.0-of-closest", "AnsiColor::to_ansi_8bit", inp, || format!("code {} at {:?}, closest is {} at {:?}", code, mine, best_code, best));
-        // the same with distances from an independent transcription of the Sharma-Wu-Dalal formula (the
-        // library's own ciede2000 is what to_ansi_8bit minimises, so it cannot judge itself); 0.001 is
-        // the agreement C11 allows between the two
-        let l3 = [lab.l, lab.a, lab.b];
-        let mut sbest = f64::MAX;
-        let mut sbest_code = 0u8;
-        let mut smine = f64::NAN;
-        for (pc, pl) in &palette {
-            let d = crate::sharma::ciede2000(l3, [pl.l, pl.a, pl.b]);
-            if d < sbest {
-                sbest = d;
-                sbest_code = *pc;
-            }
-            if *pc == code {
-                smine = d;
-            }
-        }
-        s.check(smine < sbest + 1.0 + 0.001, "within-1.0-of-closest-by-independent-ciede2000", "AnsiColor::to_ansi_8bit", inp, || format!("code {} at {:?}, closest is {} at {:?} (Sharma-Wu-Dalal formula)", code, smine, sbest_code, sbest));
         // painted output: the 8-bit sequences of a style (foreground and background) and the colour's
         // own sequence carry exactly this code - never a system colour
         let seqs = guard(|| {
@@ -150,4 +122,66 @@ pub fn run(s: &mut Session, ctx: &Ctx) {
             s.check(mine < 1.0, "palette-colour-maps-near-itself", "AnsiColor::to_ansi_8bit", inp, || format!("code {} at distance {:?}", code, mine));
         }
     }
+    // Directed search. Where the library's CIEDE2000 and the independent transcription differ by more than the
+    // 0.001 C11 allows on some (colour, palette entry) pair, the bound "less than 1.0 farther" is no longer
+    // guaranteed near that colour: look there, densely, for a colour on which C12 itself fails. (A metric
+    // difference alone is C11's business and is not reported here.)
+    if !suspects.is_empty() {
+        s.tag_n("directed-search:metric-differs-from-independent-formula", suspects.len() as u64);
+        suspects.sort_by(|a, b| b.0.partial_cmp(&a.0).unwrap_or(std::cmp::Ordering::Equal));
+        suspects.truncate(64);
+        let per = if ctx.thorough { 4000 } else { 600 };
+        for (_, c0) in suspects.iter() {
+            let q = c0.to_rgba();
+            for _ in 0..per {
+                let d = |v: u8, r: &mut Rng| -> u8 { (v as i32 + r.below(41) as i32 - 20).clamp(0, 255) as u8 };
+                let c = Color::from_rgb(d(q.r, &mut rng), d(q.g, &mut rng), d(q.b, &mut rng));
+                if let Some(code) = guard(|| c.to_ansi_8bit()) {
+                    s.count_case("", true);
+                    near_optimal(s, &c, code, &palette);
+                }
+            }
+        }
+    }
+}
+
+
+/// The near-optimality clause on one colour, judged with the library's metric and with the independent
+/// transcription. Returns the library's distance to the chosen entry and the largest disagreement (beyond 0.001)
+/// of the two metrics on an entry that competes for the choice (pairs with exactly opposite hues excepted).
+fn near_optimal(s: &mut Session, c: &Color, code: u8, palette: &[(u8, pastel::Lab)]) -> (f64, f64) {
+    let inp = || format!("{}.to_ansi_8bit()", show_color(c));
+    let lab = c.to_lab();
+    let l3 = [lab.l, lab.a, lab.b];
+    let (mut best, mut best_code, mut mine) = (f64::MAX, 0u8, f64::NAN);
+    let (mut sbest, mut sbest_code, mut smine) = (f64::MAX, 0u8, f64::NAN);
+    let mut diffs: Vec<(f64, f64)> = Vec::with_capacity(palette.len()); // (independent distance, |difference|)
+    for (pc, pl) in palette {
+        let d = pastel::delta_e::ciede2000(&lab, pl);
+        let p3 = [pl.l, pl.a, pl.b];
+        let ds = crate::sharma::ciede2000(l3, p3);
+        if (d - ds).abs() > 1e-3 && (crate::sharma::hue_gap(l3, p3) - 180.0).abs() > 1e-9 {
+            diffs.push((ds, (d - ds).abs()));
+        }
+        if d < best {
+            best = d;
+            best_code = *pc;
+        }
+        if ds < sbest {
+            sbest = ds;
+            sbest_code = *pc;
+        }
+        if *pc == code {
+            mine = d;
+            smine = ds;
+        }
+    }
+    s.check(mine < best + 1.0, "within-1.0-of-closest", "AnsiColor::to_ansi_8bit", inp, || format!("code {} at {:?}, closest is {} at {:?}", code, mine, best_code, best));
+    // the same with distances from an independent transcription of the Sharma-Wu-Dalal formula (the
+    // library's own ciede2000 is what to_ansi_8bit minimises, so it cannot judge itself); 0.001 is
+    // the agreement C11 allows between the two
+    s.check(smine < sbest + 1.0 + 0.001, "within-1.0-of-closest-by-independent-ciede2000", "AnsiColor::to_ansi_8bit", inp, || format!("code {} at {:?}, closest is {} at {:?} (Sharma-Wu-Dalal formula)", code, smine, sbest_code, sbest));
+    // the risk: how much the two metrics differ on entries that compete for the choice (within 2 units of the closest)
+    let risk = diffs.iter().filter(|(ds, _)| *ds <= sbest + 2.0).map(|(_, e)| *e).fold(0.0, f64::max);
+    (mine, risk)
 }
